@@ -6,8 +6,8 @@ import (
 	"encoding/hex"
 	"encoding/json"
 	"flag"
-	"log"
 	"fmt"
+	"log"
 	"net/http"
 	"os"
 	"sort"
@@ -41,7 +41,7 @@ type Plan struct {
 	Exhaustive bool   `json:"exhaustive"`
 	Rule       string `json:"rule"`
 	Level      string `json:"level"`
-	Race       bool   `json:"race"` // runs want the -race build
+	Race       bool   `json:"race"`       // runs want the -race build
 	RaceEvery  int    `json:"race_every"` // > 0: every RaceEvery-th run wants the -race build
 }
 
@@ -268,8 +268,8 @@ type hookImpl struct {
 func (h *hookImpl) OpenLevelDB(path string, o *opt.Options) (*leveldb.DB, error, bool) {
 	return h.d.OpenLevelDB(path, o)
 }
-func (h *hookImpl) OsOp(op string, paths ...string) error           { return h.d.OsOp(op, paths...) }
-func (h *hookImpl) OsDone(op string, err error, paths ...string)    { h.d.OsDone(op, err, paths...) }
+func (h *hookImpl) OsOp(op string, paths ...string) error        { return h.d.OsOp(op, paths...) }
+func (h *hookImpl) OsDone(op string, err error, paths ...string) { h.d.OsDone(op, err, paths...) }
 
 func sortedKeys[V any](m map[string]V) []string {
 	ks := make([]string, 0, len(m))
